@@ -323,4 +323,27 @@ Fixpoint enc (fuel : nat) (st : estate) (v : gval) {struct fuel} : eres :=
   | S f => enc_step (enc f) st v
   end.
 
+(* one level of enc.write(v) - the Write entry point: the value itself is written out even if it was
+   written before (no look-up in the reference tables), but it is registered like any other.
+     string, *string, named strings:   strenc.Write -> WriteString (always the 's' form, also for "" and "x")
+     pointers to tracked objects:      valenc.Write(enc, ptr): SetReference(ptr) and the body
+     **T and pointers to untracked:    ptrenc.Write again on the pointee
+   everything below the top level is encoded (fields and elements go through Encode). *)
+Definition write_step (rec wrec : estate -> gval -> eres) (st : estate) (v : gval) : eres :=
+  match v with
+  | GString s => let '(st1, w) := write_string st s in EOk st1 w
+  | GPtr a =>
+      match hlookup hp a with
+      | None => EPanic 2%N
+      | Some pv => if tracked pv then enc_body rec (ByPtr a) st pv else wrec st pv
+      end
+  | _ => enc_step rec st v
+  end.
+
+Fixpoint enc_write (fuel : nat) (st : estate) (v : gval) {struct fuel} : eres :=
+  match fuel with
+  | O => EFuel
+  | S f => write_step (enc f) (enc_write f) st v
+  end.
+
 End WithMode.
